@@ -451,11 +451,13 @@ def run_check(chk, tier, seed, replay=None):
         if any(sig == v[0] for v in violations):
             continue
         # minimise + confirm on the replay binary
-        rb, ra = chk.replay_for(None)
+        rb, ra = chk.replay_for_text(text) if hasattr(chk, "replay_for_text") else chk.replay_for(None)
         case = text
         if rb:
             if not case.startswith("#"):
                 case = "#harness %s %s\n" % (b, " ".join(a)) + case
+            if hasattr(chk, "prepare_for_minimise"):
+                case = chk.prepare_for_minimise(case)
             case = minimise_lines(rb, chk.replay_args_for_job(b, a) if hasattr(chk, "replay_args_for_job") else ra, case, sig, outdir, extra_env=exenv)
         h = hashlib.sha1(case.encode("utf-8", "replace")).hexdigest()[:10]
         os.makedirs(rdir, exist_ok=True)
